@@ -10,6 +10,7 @@ import (
 	"io"
 	"os"
 	"os/exec"
+	"path/filepath"
 	"sort"
 	"strings"
 	"sync"
@@ -125,6 +126,8 @@ type Diff struct {
 	Human interface{} `json:"human"`
 	Impl  string      `json:"impl"`
 	Model string      `json:"model"`
+	// Replayed: the request belongs to the case given with -case (exact replay)
+	Replayed bool `json:"replayed,omitempty"`
 }
 
 type OracleFailure struct {
@@ -138,6 +141,22 @@ type OracleFailure struct {
 	// for failures that carry the request index in ReqIdx; -1 = not compared).
 	ModelAgrees bool `json:"model_agrees"`
 	ReqIdx      int  `json:"req_idx"`
+	// Replayed: recorded while the case given with -case was running (exact replay)
+	Replayed bool `json:"replayed,omitempty"`
+}
+
+// ReplayedCase summarises what the case given with -case (a replay file of bin/check) did on this run.
+type ReplayedCase struct {
+	Ran bool `json:"ran"`
+	// oracle failures of the replayed case for the property under check (-prop; all if none is given)
+	OracleFailures int `json:"oracle_failures"`
+	// ... and for other properties
+	OracleFailuresOther int `json:"oracle_failures_other_properties"`
+	// a model/implementation difference on one of the replayed case's requests
+	Diff bool `json:"diff"`
+	// why the case was not run (input missing / not of this lane's shape / refused as unsafe)
+	Note string   `json:"note,omitempty"`
+	What []string `json:"what,omitempty"`
 }
 
 type Report struct {
@@ -155,9 +174,13 @@ type Report struct {
 	OracleBySig        map[string]int `json:"oracle_by_signature"`
 	Broken             []string       `json:"broken"` // machinery problems (CHECK-BROKEN)
 	Exhaustive         bool           `json:"exhaustive"`
+	Replayed           *ReplayedCase  `json:"replayed_case,omitempty"`
 
-	seen map[[32]byte]bool
-	mu   sync.Mutex
+	seen       map[[32]byte]bool
+	mu         sync.Mutex
+	prop       string          // property under check (for ReplayedCase.OracleFailures)
+	inReplay   bool            // the replayed case is running: oracle failures are its own
+	replayReqs map[string]bool // request lines of the replayed case
 }
 
 func NewReport(lane string, seed uint64) *Report {
@@ -191,6 +214,12 @@ func (r *Report) AddDiff(d Diff) {
 	r.mu.Lock()
 	defer r.mu.Unlock()
 	r.DiffCount++
+	if d.Replayed || r.replayReqs[d.Req] {
+		d.Replayed = true
+		if r.Replayed != nil {
+			r.Replayed.Diff = true
+		}
+	}
 	if len(r.Diffs) < 50 {
 		r.Diffs = append(r.Diffs, d)
 	}
@@ -200,6 +229,17 @@ func (r *Report) AddOracle(f OracleFailure) {
 	r.mu.Lock()
 	defer r.mu.Unlock()
 	r.OracleFailCount++
+	if r.inReplay && r.Replayed != nil {
+		f.Replayed = true
+		if r.prop == "" || f.Property == r.prop {
+			r.Replayed.OracleFailures++
+		} else {
+			r.Replayed.OracleFailuresOther++
+		}
+		if len(r.Replayed.What) < 10 {
+			r.Replayed.What = append(r.Replayed.What, f.Property+": "+f.What)
+		}
+	}
 	key := f.Property + "|" + f.Signature
 	if r.OracleBySig == nil {
 		r.OracleBySig = map[string]int{}
@@ -256,4 +296,220 @@ func (r *Report) Compare(driver string, reqs, impl []string, human []interface{}
 			r.AddDiff(Diff{Lane: r.Lane, Req: reqs[i], Human: h, Impl: impl[i], Model: model[i]})
 		}
 	}
+}
+
+// ---------- exact replay (-case <replay file of bin/check>) ----------
+
+// BeginReplay: the case given with -case starts; it runs alone, before every other case of the lane,
+// through the lane's ordinary run/compare/oracle path. Oracle failures recorded until EndReplay are its own.
+func (r *Report) BeginReplay() {
+	r.mu.Lock()
+	if r.Replayed == nil {
+		r.Replayed = &ReplayedCase{}
+	}
+	r.Replayed.Ran = true
+	r.inReplay = true
+	r.mu.Unlock()
+}
+
+// EndReplay: the replayed case is done; reqs are the model requests that belong to it (a difference
+// on one of them is the replayed case's difference).
+func (r *Report) EndReplay(reqs ...string) {
+	r.mu.Lock()
+	r.inReplay = false
+	if r.replayReqs == nil {
+		r.replayReqs = map[string]bool{}
+	}
+	for _, q := range reqs {
+		if q != "" {
+			r.replayReqs[q] = true
+		}
+	}
+	r.mu.Unlock()
+}
+
+func (r *Report) IsReplayReq(line string) bool {
+	r.mu.Lock()
+	defer r.mu.Unlock()
+	return r.replayReqs[line]
+}
+
+// ReplayNote records why the case file was not run on this lane.
+func (r *Report) ReplayNote(note string) {
+	r.mu.Lock()
+	if r.Replayed == nil {
+		r.Replayed = &ReplayedCase{}
+	}
+	r.Replayed.Note = note
+	r.mu.Unlock()
+	fmt.Fprintln(os.Stderr, "replay ("+r.Lane+"): "+note)
+}
+
+// loadReplayRaw finds the recorded input for the lane in the replay file given with -case:
+// an oracle-failure file names its lane and carries "input"; a tie-broken file lists problems, and the
+// input is the human rendering of the first difference of the first problem of this lane.
+func loadReplayRaw(cfg *Config, lane string) (json.RawMessage, bool) {
+	if cfg.CaseFile == "" || len(cfg.CaseData) == 0 {
+		return nil, false
+	}
+	var f struct {
+		Lane     string          `json:"lane"`
+		Input    json.RawMessage `json:"input"`
+		Problems []struct {
+			Lane  string `json:"lane"`
+			First []struct {
+				Human json.RawMessage `json:"human"`
+			} `json:"first"`
+		} `json:"problems"`
+	}
+	if err := json.Unmarshal(cfg.CaseData, &f); err != nil {
+		return nil, false
+	}
+	isNull := func(m json.RawMessage) bool { return len(m) == 0 || string(m) == "null" }
+	if f.Lane == lane && !isNull(f.Input) {
+		return f.Input, true
+	}
+	for _, p := range f.Problems {
+		if p.Lane == lane && len(p.First) > 0 && !isNull(p.First[0].Human) {
+			return p.First[0].Human, true
+		}
+	}
+	return nil, false
+}
+
+// replayNamesLane: the replay file is about this lane (whether or not it carries a usable input)
+func replayNamesLane(cfg *Config, lane string) bool {
+	if cfg.CaseFile == "" || len(cfg.CaseData) == 0 {
+		return false
+	}
+	var f struct {
+		Lane     string `json:"lane"`
+		Problems []struct {
+			Lane string `json:"lane"`
+		} `json:"problems"`
+	}
+	if json.Unmarshal(cfg.CaseData, &f) != nil {
+		return false
+	}
+	if f.Lane == lane {
+		return true
+	}
+	for _, p := range f.Problems {
+		if p.Lane == lane {
+			return true
+		}
+	}
+	return false
+}
+
+// loadReplayInput: true iff -case is given, the file is about this lane and its input unmarshals into v.
+func loadReplayInput(cfg *Config, lane string, v interface{}) bool {
+	raw, ok := loadReplayRaw(cfg, lane)
+	if !ok {
+		return false
+	}
+	return json.Unmarshal(raw, v) == nil
+}
+
+// replayMissing notes, for a lane the replay file names, that no usable input was found in it.
+func replayMissing(cfg *Config, rep *Report, lane string) {
+	if replayNamesLane(cfg, lane) {
+		rep.ReplayNote("the replay file names this lane but holds no input of the lane's case shape; only the ordinary run is made")
+	}
+}
+
+// ---- safety of replayed cases: the harness may run as root and the code under test follows links on
+// purpose, so a replayed case must not mention a real path ----
+
+// rewriteArena replaces every absolute path prefix that looks like an arena of the lane (a clean
+// absolute path whose last component is <letter><digits>, e.g. ".../u000123") by arena. The prefix may
+// be embedded after a run of '..' ("../../tmp/w/u000000/p" -> "../.." + arena + "/p").
+func rewriteArena(s string, letter byte, digits int, arena string) string {
+	isArenaName := func(c string) bool {
+		if len(c) != digits+1 || c[0] != letter {
+			return false
+		}
+		for i := 1; i < len(c); i++ {
+			if c[i] < '0' || c[i] > '9' {
+				return false
+			}
+		}
+		return true
+	}
+	comps := strings.Split(s, "/")
+	for k := len(comps) - 1; k >= 1; k-- {
+		if !isArenaName(comps[k]) {
+			continue
+		}
+		// walk back over ordinary names: the arena path is absolute, so the run of names must be
+		// preceded by an empty component (the leading '/') or, when embedded, by a '..'
+		j := k - 1
+		for j >= 0 && comps[j] != "" && comps[j] != "." && comps[j] != ".." {
+			j--
+		}
+		if j < 0 || comps[j] == "." || (comps[j] == ".." && k-j < 2) {
+			continue // a relative path that merely contains such a name
+		}
+		head := strings.Join(comps[:j+1], "/") // "../.." (embedded) ...
+		if comps[j] == "" {
+			head = strings.Join(comps[:j], "/") // ... or what precedes the '/' the arena path starts with
+		}
+		tail := ""
+		if k+1 < len(comps) {
+			tail = "/" + strings.Join(comps[k+1:], "/")
+		}
+		return rewriteArena(head, letter, digits, arena) + arena + tail
+	}
+	return s
+}
+
+func countDotDot(s string) int {
+	n := 0
+	for _, c := range strings.Split(s, "/") {
+		if c == ".." {
+			n++
+		}
+	}
+	return n
+}
+
+// unsafeTarget: s is used as a link target or an allow-list entry. An absolute one must lie inside one of
+// the scratch roots; a relative one may climb at most five levels (the arenas sit deeper than that
+// below the scratch directory).
+func unsafeTarget(s string, roots ...string) string {
+	if countDotDot(s) > 5 {
+		return fmt.Sprintf("%q climbs more than five levels", s)
+	}
+	if strings.HasPrefix(s, "/") {
+		c := filepath.Clean(s)
+		for _, r := range roots {
+			if r != "" && r != "/" && within(r, c) {
+				return ""
+			}
+		}
+		return fmt.Sprintf("absolute path %q is not inside the scratch arena of the replayed case", s)
+	}
+	return ""
+}
+
+// unsafeRelName: s names something below a scratch directory (a tree node, an archive entry): after
+// dropping leading slashes it must not begin with a name that exists in the real root directory when it
+// was written as an absolute path, and must not climb more than five levels.
+func unsafeRelName(s string, mayClimb bool) string {
+	n := countDotDot(s)
+	if n > 5 || (!mayClimb && n > 0) {
+		return fmt.Sprintf("%q climbs out of its directory", s)
+	}
+	if strings.HasPrefix(s, "/") {
+		if !mayClimb {
+			return fmt.Sprintf("%q is absolute", s)
+		}
+		c := strings.Split(strings.TrimLeft(filepath.Clean(s), "/"), "/")[0]
+		if c != "" {
+			if _, err := os.Lstat("/" + c); err == nil {
+				return fmt.Sprintf("absolute name %q begins with a real top-level directory", s)
+			}
+		}
+	}
+	return ""
 }
